@@ -86,6 +86,8 @@ def scn_scaler(T, case):
     for i in range(n):
         inside = (lb[i] <= x[i]) & (x[i] <= ub[i])
         inside_h = (lh[i] <= xh[i]) & (xh[i] <= uh[i])
+        if not T.symbolic:
+            T.assume(abs(float(x[i]) - float(lb[i])) > 1e-9 * (1 + abs(float(x[i]))) and abs(float(x[i]) - float(ub[i])) > 1e-9 * (1 + abs(float(x[i]))))
         T.prove("C11.scaler.bounds_satisfied_iff_transformed_bounds_satisfied", T.all([T.implies(inside, inside_h), T.implies(inside_h, inside)]))
     T.prove("C11.scaler.transformed_bounds_keep_their_order", T.all(lh <= uh))
 
@@ -160,6 +162,9 @@ def scn_linear(T, case):
         v = T.total([A[r, i] * x[i] for i in range(n)])
         vh = T.total([Ah[r, i] * xh[i] for i in range(n)])
         ok, okh = (lb[r] <= v) & (v <= ub[r]), (lh[r] <= vh) & (vh <= uh[r])
+        if not T.symbolic:
+            # native doubles: a value within rounding of a bound may fall on either side after the transformation ("up to rounding")
+            T.assume(abs(float(v) - float(lb[r])) > 1e-9 * (1 + abs(float(v))) and abs(float(v) - float(ub[r])) > 1e-9 * (1 + abs(float(v))))
         T.prove("C11.linear.point_feasible_iff_image_feasible_for_transformed_constraints", T.all([T.implies(ok, okh), T.implies(okh, ok)]))
         T.prove("C11.linear.transformed_rows_are_normalised", T.same(T.np.max(T.np.abs(Ah[r, :])), 1.0) if T.symbolic else abs(float(np.max(np.abs(Ah[r, :]))) - 1.0) < 1e-12)
         # differences map back exactly
